@@ -77,6 +77,7 @@ func C16(c *Ctx) {
 	if writeState == nil {
 		return
 	}
+	isWrite, writeHelpers := c16Writes(c, writeState)
 	la := lockset.New(fns)
 	for _, f := range la.Fns {
 		c.R.Fn(fname(f))
@@ -90,7 +91,7 @@ func C16(c *Ctx) {
 	for _, f := range fns {
 		var wsCalls []*ssa.Call
 		ssau.Instrs(f, func(in ssa.Instruction) {
-			if cl, ok := in.(*ssa.Call); ok && cl.Common().StaticCallee() == writeState {
+			if cl, ok := in.(*ssa.Call); ok && isWrite(cl) {
 				wsCalls = append(wsCalls, cl)
 			}
 		})
@@ -144,8 +145,8 @@ func C16(c *Ctx) {
 	for _, f := range fns {
 		ssau.Instrs(f, func(in ssa.Instruction) {
 			cl, ok := in.(*ssa.Call)
-			if !ok || cl.Common().StaticCallee() != writeState {
-				return
+			if !ok || !isWrite(cl) || writeHelpers[f] {
+				return // (inside a write helper the lock is the caller's: the helper's call sites are judged)
 			}
 			nws++
 			held := la.Held(in)
@@ -168,7 +169,7 @@ func C16(c *Ctx) {
 						releases = append(releases, in)
 					}
 				}
-				if ci.Common().StaticCallee() == writeState {
+				if isWrite(ci) {
 					accesses = append(accesses, in)
 				}
 			}
@@ -302,6 +303,18 @@ func C16(c *Ctx) {
 							if _, isMake := sv.(*ssa.MakeMap); isMake {
 								updBlocks[b] = true
 							}
+						}
+					} else {
+						// a field of a value built here (`w := &stateWrites{vals: make(...)}`)
+						ls := resolveThroughLocals(mu.Map, []*ssa.Function{writeState})
+						all := len(ls) > 0
+						for _, l := range ls {
+							if _, isMake := l.(*ssa.MakeMap); !isMake {
+								all = false
+							}
+						}
+						if all {
+							updBlocks[b] = true
 						}
 					}
 				}
@@ -493,7 +506,7 @@ func c16FailedWrite(c *Ctx) {
 				return
 			}
 			sc := cl.Common().StaticCallee()
-			if sc == writeState {
+			if sc == writeState || (sc == nil && isWriteIface(c, cl, writeState)) {
 				out = cl
 				return
 			}
@@ -514,6 +527,10 @@ func c16FailedWrite(c *Ctx) {
 	}
 	// functions of the package that hand an emitted message on
 	handsOn := map[*ssa.Function]bool{}
+	emitSites := map[ssa.Instruction]bool{}
+	for _, st := range emittedSendSites(c.P.FuncsIn("cmd/mcrew")) {
+		emitSites[st.in] = true
+	}
 	isHandOver := func(in ssa.Instruction) bool {
 		switch x := in.(type) {
 		case *ssa.Send:
@@ -541,6 +558,9 @@ func c16FailedWrite(c *Ctx) {
 		case *ssa.Call:
 			if sc := x.Common().StaticCallee(); sc != nil && handsOn[sc] {
 				return true
+			}
+			if emitSites[in] {
+				return true // a helper that sends on the channel it is given, given Service.Emitted here
 			}
 		}
 		return false
@@ -688,4 +708,60 @@ func c16FailureKept(f *ssa.Function, w *ssa.Call) bool {
 		}
 	}
 	return true
+}
+
+// c16Writes classifies calls of cmd/mcrew as "the store write": Storage.WriteState itself (called directly or
+// through an interface, resolved by the call graph), or an unexported helper of the package that performs such a
+// write and keeps its failure (c16FailureKept).  helpers lists those helpers.
+func c16Writes(c *Ctx, writeState *ssa.Function) (isWrite func(cl *ssa.Call) bool, helpers map[*ssa.Function]bool) {
+	helpers = map[*ssa.Function]bool{}
+	isWrite = func(cl *ssa.Call) bool {
+		if cl == nil {
+			return false
+		}
+		cm := cl.Common()
+		if sc := cm.StaticCallee(); sc != nil {
+			return sc == writeState || helpers[sc]
+		}
+		if cm.IsInvoke() && cm.Method.Name() == "WriteState" {
+			for _, cal := range c.P.Callees(cl) {
+				if cal == writeState {
+					return true
+				}
+			}
+		}
+		return false
+	}
+	for changed, round := true, 0; changed && round < 4; round++ {
+		changed = false
+		for _, f := range c.P.FuncsIn("cmd/mcrew") {
+			if helpers[f] || f == writeState || f.Parent() != nil || f.Object() == nil || f.Object().Exported() {
+				continue
+			}
+			var w *ssa.Call
+			ssau.Instrs(f, func(in ssa.Instruction) {
+				if cl, ok := in.(*ssa.Call); ok && w == nil && isWrite(cl) {
+					w = cl
+				}
+			})
+			if w != nil && c16FailureKept(f, w) {
+				helpers[f] = true
+				changed = true
+			}
+		}
+	}
+	return
+}
+
+// isWriteIface: an interface call of WriteState that the call graph resolves to Storage.WriteState.
+func isWriteIface(c *Ctx, cl *ssa.Call, writeState *ssa.Function) bool {
+	if !cl.Common().IsInvoke() || cl.Common().Method.Name() != "WriteState" {
+		return false
+	}
+	for _, cal := range c.P.Callees(cl) {
+		if cal == writeState {
+			return true
+		}
+	}
+	return false
 }
